@@ -5,3 +5,4 @@ from . import ctxm  # noqa: F401
 from . import val  # noqa: F401
 from . import iterfog  # noqa: F401
 from . import binary  # noqa: F401
+from . import smt  # noqa: F401
